@@ -86,8 +86,12 @@ def check_case(case, res=None):
             p = os.path.join(out_b, rel)
             os.makedirs(os.path.dirname(p), exist_ok=True)
             with open(p, "wb") as f:
-                # an earlier, larger revision of the same module: the rerun must replace it completely
-                f.write(data + b"\n# tail of an older, longer revision\n" * (1 + len(rel) % 3))
+                if len(rel) % 2:
+                    # the same module as a checkout with CRLF line endings would hold it
+                    f.write(data.replace(b"\n", b"\r\n"))
+                else:
+                    # an earlier, larger revision of the same module: the rerun must replace it completely
+                    f.write(data + b"\n# tail of an older, longer revision\n" * (1 + len(rel) % 3))
         with open(os.path.join(out_b, "zzz_unrelated.txt"), "w") as f:
             f.write("keep me")
         # stale modules left over from an earlier, different specification
